@@ -5,8 +5,9 @@
 (* Abstract SCHEMAS: one global element  b  with an anonymous complex type *)
 (*   sequence( kid1 named a, kid2 named b, kid3 named a )   (<= MaxKids)   *)
 (*   + attribute declarations named a / c                   (<= 2)         *)
-(* a kid declaration is [ty, mn, mx, nil, dv, sg]: type, minOccurs 0/1,    *)
-(* maxOccurs 1/2, nillable, has-a-default-value, ref-to-a-head.  Types:    *)
+(* a kid declaration is [ty, mn, mx, nil, dv, sg, anon]: type, minOccurs,  *)
+(* maxOccurs 1/2, nillable, has-a-default-value, ref-to-a-head, anonymous  *)
+(* restriction of ty.  Types:                                              *)
 (*   builtin atomic   int integer decimal string date boolean              *)
 (*   small  = restriction(xs:int, maxInclusive 10)                         *)
 (*   ilist  = list(xs:int)           u = union(xs:int, xs:string)          *)
@@ -19,6 +20,12 @@
 (*   v      = restriction(type of kid 1): a global type whose DEFINITION   *)
 (*            differs from schema to schema under the same name; instances *)
 (*            name it in xsi:type on kid 1                                 *)
+(*   long, unsignedLong, bint (= xs:integer), bdec (= xs:decimal): the     *)
+(*            same built-ins with values BEYOND 2^53 / more than 16 digits; *)
+(*            TLC integers are 32 bit, so these values are digit sequences  *)
+(*            [ip, fp] with an exact order (DigCmp / BigCmp)                *)
+(* A kid declaration with anon = TRUE has an ANONYMOUS local simple type,   *)
+(* a restriction (no facet) of ty: the type annotation has no name.         *)
 (* A kid declaration with sg = TRUE is  <xs:element ref="a"/>  to a GLOBAL *)
 (* element a (the head of a substitution group) whose only member is the   *)
 (* global element m, typed with a type DERIVED from the head's             *)
@@ -110,15 +117,27 @@ BoolOf(s) == s \in {LTrue, <<"1">>}
 
 ---------------------------------------------------------------------------
 (* The type hierarchy (XSD part 2 section 3, built-in derivation; part 1 3.4.2 for sc/grp) *)
-AtomicBuiltins == {"short", "int", "long", "integer", "decimal", "string", "date", "boolean"}
-SimpleTypes    == AtomicBuiltins \cup {"small", "ilist", "u", "ud"}
-AllTypes       == SimpleTypes \cup {"sc", "grp", "root", "anyAtomicType", "anySimpleType", "anyType", "v"}
+AtomicBuiltins == {"short", "int", "long", "integer", "decimal", "string", "date", "boolean",
+                   "unsignedLong", "nonNegativeInteger"}
+AnonBases      == {"int", "integer", "decimal", "string"}
+Anon(T)        == CASE T = "int" -> "~int" [] T = "integer" -> "~integer" [] T = "decimal" -> "~decimal" [] T = "string" -> "~string"
+AnonTypes      == {Anon(T) : T \in AnonBases}
+AnonBase(A)    == CHOOSE T \in AnonBases : Anon(T) = A
+BigTypes       == {"long", "unsignedLong", "bint", "bdec"}
+SimpleTypes    == AtomicBuiltins \cup {"small", "ilist", "u", "ud", "bint", "bdec"}
+AllTypes       == SimpleTypes \cup AnonTypes
+                  \cup {"sc", "grp", "root", "anyAtomicType", "anySimpleType", "anyType", "v"}
 VBases         == {"int", "integer", "decimal", "string"}       \* what v may restrict
 
 BaseOf(T) == CASE T = "short"   -> "int"
                [] T = "int"     -> "long"
                [] T = "long"    -> "integer"
                [] T = "integer" -> "decimal"
+               [] T = "unsignedLong" -> "nonNegativeInteger"
+               [] T = "nonNegativeInteger" -> "integer"
+               [] T = "bint"    -> "integer"      \* bint IS xs:integer (an alias whose values are digit sequences)
+               [] T = "bdec"    -> "decimal"      \* bdec IS xs:decimal
+               [] T \in AnonTypes -> AnonBase(T)  \* anonymous restriction
                [] T \in {"decimal", "string", "date", "boolean"} -> "anyAtomicType"
                [] T = "anyAtomicType" -> "anySimpleType"
                [] T \in {"ilist", "u", "ud"} -> "anySimpleType"
@@ -136,10 +155,35 @@ ChainS(S, T)  == IF T = "v" THEN {"v"} \cup Chain(VBase(S)) ELSE Chain(T)
 SgHeads == {"decimal", "integer", "int"}
 SgMember(T) == CASE T = "decimal" -> "int" [] T = "integer" -> "int" [] T = "int" -> "small"
 
-HasSimpleValue(T) == T \in SimpleTypes \cup {"sc", "v"}      \* simple or simple-content type
-ContentType(T)    == IF T = "sc" THEN "decimal" ELSE T
+HasSimpleValue(T) == T \in SimpleTypes \cup AnonTypes \cup {"sc", "v"}      \* simple or simple-content type
+ContentType(T)    == IF T = "sc" THEN "decimal" ELSE IF T \in AnonTypes THEN AnonBase(T) ELSE T
 (* the datatype class of a value of type T: the nearest built-in atomic type *)
-AtomClass(T) == IF T = "small" THEN "int" ELSE T
+AtomClass(T) == CASE T = "small" -> "int" [] T = "bint" -> "bigInteger" [] T = "bdec" -> "bigDecimal" [] OTHER -> T
+
+(* numbers that do not fit 32 bits (nor a double): non-negative, [ip, fp] digit sequences, *)
+(* ip without leading zeros, fp without trailing zeros                                      *)
+RECURSIVE StripZ(_)
+StripZ(d) == IF Len(d) > 1 /\ d[1] = "0" THEN StripZ(Tail(d)) ELSE d
+RECURSIVE StripTZ(_)
+StripTZ(d) == IF d # <<>> /\ d[Len(d)] = "0" THEN StripTZ(SubSeq(d, 1, Len(d)-1)) ELSE d
+VBig(tag, s) == LET c == Collapse(s) IN
+                [t |-> tag, ip |-> StripZ(IF IntPart(c) = <<>> THEN <<"0">> ELSE IntPart(c)), fp |-> StripTZ(FrcPart(c))]
+IsBig(v) == "ip" \in DOMAIN v
+RECURSIVE LexCmp(_, _, _)       \* digit sequences of equal length
+LexCmp(a, b, i) == IF i > Len(a) THEN 0
+                   ELSE IF DigitVal(a[i]) < DigitVal(b[i]) THEN 0 - 1
+                   ELSE IF DigitVal(a[i]) > DigitVal(b[i]) THEN 1
+                   ELSE LexCmp(a, b, i + 1)
+DigCmp(a, b) == IF Len(a) < Len(b) THEN 0 - 1 ELSE IF Len(a) > Len(b) THEN 1 ELSE LexCmp(a, b, 1)
+RECURSIVE FrcCmp(_, _, _)       \* fraction digits, the shorter one is padded with zeros
+FrcCmp(a, b, i) == IF i > Len(a) /\ i > Len(b) THEN 0
+                   ELSE LET x == IF i > Len(a) THEN 0 ELSE DigitVal(a[i])
+                            y == IF i > Len(b) THEN 0 ELSE DigitVal(b[i])
+                        IN IF x < y THEN 0 - 1 ELSE IF x > y THEN 1 ELSE FrcCmp(a, b, i + 1)
+BigCmp(x, y) == LET c == DigCmp(x.ip, y.ip) IN IF c # 0 THEN c ELSE FrcCmp(x.fp, y.fp, 1)
+CmpOps == {"eq", "ne", "lt", "le", "gt", "ge"}
+OpHolds(op, c) == CASE op = "eq" -> c = 0 [] op = "ne" -> c # 0 [] op = "lt" -> c < 0
+                    [] op = "le" -> c <= 0 [] op = "gt" -> c > 0 [] op = "ge" -> c >= 0
 
 ValidLex(T, s) ==
   LET c == Collapse(s) IN
@@ -151,6 +195,9 @@ ValidLex(T, s) ==
     [] T = "boolean" -> IsBoolLex(c)
     [] T = "ilist"   -> \A i \in 1..Len(Toks(s)) : IsIntLex(Toks(s)[i])
     [] T = "ud"      -> Collapse(s) = s
+    [] T \in {"long", "unsignedLong"} -> AllDigits(c) /\ Len(c) <= 18   \* below 2^63 whatever the digits
+    [] T = "bint"    -> AllDigits(c)
+    [] T = "bdec"    -> IsDecLex(c) /\ ~Signed(c)
     [] T = "u"       -> Collapse(s) = s           \* the xs:string member accepts everything; lexicals with
                                                   \* surrounding white space are outside the universe (XSD 1.0
                                                   \* and 1.1 normalise them differently before the member test)
@@ -174,10 +221,16 @@ TypedValue(T, s) ==
     [] T = "boolean" -> <<VBool(BoolOf(c))>>
     [] T = "ilist"   -> [i \in 1..Len(Toks(s)) |-> VInt("int", IntOf(Toks(s)[i]))]
     [] T = "u"       -> IF IsIntLex(s) /\ s # <<>> THEN <<VInt("int", IntOf(s))>> ELSE <<VStr(s)>>
+    [] T = "long"    -> <<VBig("long", s)>>
+    [] T = "unsignedLong" -> <<VBig("unsignedLong", s)>>
+    [] T = "bint"    -> <<VBig("bigInteger", s)>>
+    [] T = "bdec"    -> <<VBig("bigDecimal", s)>>
     [] T = "ud"      -> IF IsDecLex(s) /\ s # <<>> THEN <<VDec(DecOf(s))>> ELSE <<VStr(s)>>   \* first member that accepts
 (* the same for the schema-dependent type *)
-TypedValueS(S, T, s) == IF T = "v" THEN TypedValue(VBase(S), s) ELSE TypedValue(T, s)
-ValidLexS(S, T, s)   == IF T = "v" THEN ValidLex(VBase(S), s) ELSE ValidLex(T, s)
+TypedValueS(S, T, s) == IF T = "v" THEN TypedValue(VBase(S), s)
+                        ELSE IF T \in AnonTypes THEN TypedValue(AnonBase(T), s) ELSE TypedValue(T, s)
+ValidLexS(S, T, s)   == IF T = "v" THEN ValidLex(VBase(S), s)
+                        ELSE IF T \in AnonTypes THEN ValidLex(AnonBase(T), s) ELSE ValidLex(T, s)
 
 ---------------------------------------------------------------------------
 (* Lexical representatives per type *)
@@ -187,6 +240,13 @@ Ldec == <<"2",".","5","0">>
 Ld1 == <<"2","0","0","0","-","0","1","-","0","1">>
 Ld2 == <<"2","0","0","1","-","1","2","-","3","1">>
 Llist == <<"1"," ","2">>      Llist2 == <<" ","3"," "," ","4"," ">>
+B53   == <<"9","0","0","7","1","9","9","2","5","4","7","4","0","9","9","2">>        \* 2^53
+B53p1 == <<"9","0","0","7","1","9","9","2","5","4","7","4","0","9","9","3">>        \* 2^53 + 1: not a double
+B53p2 == <<"9","0","0","7","1","9","9","2","5","4","7","4","0","9","9","4">>
+D53h  == B53p1 \o <<".","5">>
+B30   == <<"1","2","3","4","5","6","7","8","9","0","1","2","3","4","5","6","7","8","9","0",
+           "1","2","3","4","5","6","7","8","9","0">>
+BigLits == {B53, B53p1, B53p2, D53h, B30}          \* literals the probes compare with
 
 LexSeq(T) == CASE T = "int"     -> <<L7, Lsp7, Lm3, L12>>
                [] T = "integer" -> <<Lm3, L7>>
@@ -199,16 +259,22 @@ LexSeq(T) == CASE T = "int"     -> <<L7, Lsp7, Lm3, L12>>
                [] T = "ilist"   -> <<Llist, Llist2, L7>>
                [] T = "u"       -> <<L7, Lx, Lm3>>
                [] T = "ud"      -> <<Lx, Ldec>>
+               [] T = "long"    -> <<B53p1, B53>>
+               [] T = "unsignedLong" -> <<B53p2, B53p1>>
+               [] T = "bint"    -> <<B53, B30>>
+               [] T = "bdec"    -> <<D53h, B53p1>>
                [] T = "grp"     -> << <<>> >>
 Lex(T) == {LexSeq(T)[i] : i \in 1..(IF LexCap < Len(LexSeq(T)) THEN LexCap ELSE Len(LexSeq(T)))}
 SecondLex(T) == CASE T \in {"int", "integer", "small", "decimal", "sc", "u", "ud", "ilist"} -> L7
                   [] T = "string" -> Lx  [] T = "date" -> Ld1  [] T = "boolean" -> LTrue
+                  [] T \in BigTypes -> B53p1
                   [] T = "grp" -> <<>>
 (* default value of the declaration at position pos (kid3 differs from kid1 on purpose) *)
 DefaultLex(T, pos) == CASE T \in {"int", "integer", "small", "decimal", "sc", "u", "ud", "string"} -> IF pos = 3 THEN L5 ELSE L3
                         [] T = "date"    -> IF pos = 3 THEN Ld1 ELSE Ld2
                         [] T = "boolean" -> IF pos = 3 THEN LFalse ELSE LTrue
                         [] T = "ilist"   -> IF pos = 3 THEN Llist2 ELSE Llist
+                        [] T \in BigTypes -> B53p1
 (* types an instance may name in xsi:type: derived from the declared type *)
 XsiTypes(T) == CASE T = "int" -> {"small"}  [] T = "integer" -> {"int"}  [] T = "decimal" -> {"int", "small"}
                  [] OTHER -> {}
@@ -221,6 +287,8 @@ SchemaOK(ks) ==
   /\ Len(ks) = 3 => /\ ks[1].ty = ks[3].ty          \* Element Declarations Consistent
                     /\ ks[2].mn = 1                  \* Unique Particle Attribution
   /\ \A i \in 1..Len(ks) : ks[i].dv => ks[i].ty # "grp"
+  /\ \A i \in 1..Len(ks) : ks[i].anon =>          \* two anonymous types are two types: not for the a ... a pair
+        ks[i].ty \in AnonBases /\ ~ks[i].sg /\ ~(Len(ks) = 3 /\ i \in {1, 3})
   /\ \A i \in 1..Len(ks) : ks[i].sg =>            \* the minimal substitution group: kid 1 only, no kid 3,
         i = 1 /\ Len(ks) <= 2 /\ ks[i].ty \in SgHeads /\ ~ks[i].nil /\ ~ks[i].dv   \* plain head
 AttSets == {as \in SUBSET AttrMenu : Cardinality(as) <= MaxAtts
@@ -241,8 +309,8 @@ OccVariants(d, pos) ==
    ELSE {Occ(l, FALSE, "none", a, NoLex) : l \in Lex(d.ty), a \in (IF d.ty = "sc" THEN {NoLex, L7} ELSE {NoLex})})
   \cup (IF d.nil THEN {Occ(<<>>, TRUE, "none", NoLex, NoLex)} ELSE {})
   \cup (IF d.dv THEN {Occ(<<>>, FALSE, "none", NoLex, NoLex)} ELSE {})
-  \cup (IF XsiOn THEN {Occ(l, FALSE, x, NoLex, NoLex) : x \in XsiTypes(d.ty), l \in {L7, Lm3}} ELSE {})
-  \cup (IF VOn /\ pos = 1 /\ d.ty \in VBases /\ ~d.sg THEN {Occ(L7, FALSE, "v", NoLex, NoLex)} ELSE {})
+  \cup (IF XsiOn /\ ~d.anon THEN {Occ(l, FALSE, x, NoLex, NoLex) : x \in XsiTypes(d.ty), l \in {L7, Lm3}} ELSE {})
+  \cup (IF VOn /\ pos = 1 /\ d.ty \in VBases /\ ~d.sg /\ ~d.anon THEN {Occ(L7, FALSE, "v", NoLex, NoLex)} ELSE {})
   \cup (IF d.sg THEN {MemOcc(l) : l \in Lex(SgMember(d.ty))} ELSE {})
 
 Seconds(d) == {Occ(SecondLex(d.ty), FALSE, "none", NoLex, NoLex)}
@@ -266,8 +334,9 @@ Instances(S) == {[kids |-> ko, atts |-> ao] : ko \in KidProd(S, 1), ao \in AttPr
 
 (* effective type and text of an occurrence (XSD part 1, 3.3.4: xsi:type overrides, *)
 (* an empty element with a default takes the default, 3.3.4 clause 5.1)             *)
-EffType(d, o)      == IF o.xt # "none" THEN o.xt ELSE IF o.mem THEN SgMember(d.ty) ELSE d.ty
-EffText(d, pos, o) == IF o.lx = <<>> /\ d.dv /\ ~o.nil THEN DefaultLex(EffType(d, o), pos) ELSE o.lx
+DeclTy(d)          == IF d.anon THEN Anon(d.ty) ELSE d.ty                \* the type of the declaration
+EffType(d, o)      == IF o.xt # "none" THEN o.xt ELSE IF o.mem THEN SgMember(d.ty) ELSE DeclTy(d)
+EffText(d, pos, o) == IF o.lx = <<>> /\ d.dv /\ ~o.nil THEN DefaultLex(ContentType(EffType(d, o)), pos) ELSE o.lx
 
 (* validity, stated independently of the generator above *)
 ValidInstance(S, inst) ==
@@ -278,7 +347,7 @@ ValidInstance(S, inst) ==
        /\ \A j \in 1..Len(inst.kids[i]) :
             LET o == inst.kids[i][j] IN
             /\ o.nil => d.nil /\ o.lx = <<>> /\ o.sub = NoLex
-            /\ o.xt # "none" => d.ty \in ChainS(S, o.xt) /\ o.xt # d.ty /\ (o.xt = "v" => i = 1)
+            /\ o.xt # "none" => d.ty \in ChainS(S, o.xt) /\ o.xt # d.ty /\ (o.xt = "v" => i = 1) /\ ~d.anon
             /\ o.mem => d.sg /\ o.xt = "none" /\ ~o.nil
             /\ ~o.nil => ValidLexS(S, EffType(d, o), EffText(d, i, o))
             /\ o.at # NoLex => EffType(d, o) = "sc" /\ ValidLex("int", o.at)
@@ -369,6 +438,7 @@ UntypedAnnot(S, inst) == LET f == Flatten(S, inst) IN [n \in 1..Len(f) |-> Untyp
 
 (* derives-from: `instance of element(_, Q)` / `attribute(_, Q)` (nilled elements need Q?) *)
 QueryTypes == {"short", "int", "long", "integer", "decimal", "string", "date", "boolean",
+               "unsignedLong", "nonNegativeInteger",
                "small", "ilist", "u", "ud", "v", "sc", "grp", "anyAtomicType", "anySimpleType", "anyType"}
 InstanceOf(S, a, Q, optional) == a.ty \in AllTypes /\ Q \in ChainS(S, a.ty) /\ (a.nilled => optional)
 
@@ -393,6 +463,18 @@ Plus1(tv) ==
        CASE v.t \in {"int", "integer"} -> RVal(VInt("integer", v.i + 1))
          [] v.t = "decimal" -> RVal(VDec(NormDec(v.u + Pow10(v.sc), v.sc)))
          [] v.t = "string"  -> RK("err")                     \* XPTY0004: typed, NOT cast like untyped
+         [] OTHER -> RK("na")
+
+(* `. idiv 2`  (op:numeric-integer-divide: the quotient truncated towards zero, an xs:integer) *)
+TruncDiv(a, b) == IF a >= 0 THEN a \div b ELSE 0 - ((0 - a) \div b)         \* b > 0
+IDiv2(tv) ==
+  IF tv = NoValue THEN RK("na")
+  ELSE IF tv = <<>> THEN RK("empty")
+  ELSE IF Len(tv) > 1 THEN RK("err")
+  ELSE LET v == tv[1] IN
+       CASE v.t \in {"int", "integer"} -> RVal(VInt("integer", TruncDiv(v.i, 2)))
+         [] v.t = "decimal" -> RVal(VInt("integer", TruncDiv(v.u, 2 * Pow10(v.sc))))
+         [] v.t = "string"  -> RK("err")
          [] OTHER -> RK("na")
 
 (* `. = 7`  (general comparison, existential over the items of the typed value) *)
@@ -426,6 +508,7 @@ Vec(S, inst) ==
   LET f == Flatten(S, inst)
       A == Annot(S, inst)
       judged(n) == IsTypedKind(f[n].k)
+      bign(n)   == judged(n) /\ A[n].tv # NoValue /\ Len(A[n].tv) = 1 /\ IsBig(A[n].tv[1])
   IN [f       |-> f,
       sdef    |-> SchemaDefaults(S),
       typed   |-> A,
@@ -433,26 +516,45 @@ Vec(S, inst) ==
       iof     |-> [n \in 1..Len(f) |-> IF judged(n) THEN {Q \in QueryTypes : InstanceOf(S, A[n], Q, FALSE)} ELSE {}],
       iofopt  |-> [n \in 1..Len(f) |-> IF judged(n) THEN {Q \in QueryTypes : InstanceOf(S, A[n], Q, TRUE)} ELSE {}],
       plus1   |-> [n \in 1..Len(f) |-> IF judged(n) THEN Plus1(A[n].tv) ELSE RK("na")],
+      idiv2   |-> [n \in 1..Len(f) |-> IF judged(n) THEN IDiv2(A[n].tv) ELSE RK("na")],
       eq7     |-> [n \in 1..Len(f) |-> IF judged(n) THEN Eq7(A[n].tv) ELSE RK("na")],
-      ltdate  |-> [n \in 1..Len(f) |-> IF judged(n) THEN LtDate(A[n].tv) ELSE RK("na")]]
+      ltdate  |-> [n \in 1..Len(f) |-> IF judged(n) THEN LtDate(A[n].tv) ELSE RK("na")],
+      \* value comparisons of the big-number nodes with literals and with each other: <<.., op, holds>>
+      cmplit  |-> [n \in 1..Len(f) |-> IF bign(n) THEN {<<K, op, OpHolds(op, BigCmp(A[n].tv[1], VBig("lit", K)))>> :
+                                                          K \in BigLits, op \in CmpOps} ELSE {}],
+      cmpnn   |-> {<<n1, n2, op, OpHolds(op, BigCmp(A[n1].tv[1], A[n2].tv[1]))>> :
+                      n1 \in {n \in 1..Len(f) : bign(n)}, n2 \in {n \in 1..Len(f) : bign(n)}, op \in CmpOps}]
 
 ---------------------------------------------------------------------------
 (* Laws of the definitions, evaluated by TLC for every schema / instance of the universe *)
 AllLex(T) == {LexSeq(T)[i] : i \in 1..Len(LexSeq(T))}
-LawLexValid == /\ \A T \in SimpleTypes \ {"short", "long"} : \A l \in AllLex(T) : ValidLex(T, l)
+Lexed == SimpleTypes \ {"short", "nonNegativeInteger"}      \* the types that have lexical representatives
+LawLexValid == /\ \A T \in Lexed : \A l \in AllLex(T) : ValidLex(T, l)
                /\ \A T \in SgHeads : SgMember(T) # T /\ T \in Chain(SgMember(T))      \* the member's type derives from the head's
                /\ \A T \in SgHeads : \A l \in AllLex(SgMember(T)) : ValidLex(T, l)   \* ... so its lexicals are the head's too
 LawChain ==    \* derives-from is reflexive, transitive, rooted in anyType; a restriction keeps the class
   /\ \A T \in AllTypes \ {"v"} : T \in Chain(T) /\ "anyType" \in Chain(T)
   /\ \A T \in AllTypes \ {"v"} : \A Q \in Chain(T) : Chain(Q) \subseteq Chain(T)
-  /\ \A T \in SimpleTypes : AtomClass(T) \in Chain(T)
-LawCollapse == \A T \in SimpleTypes \ {"short", "long"} : \A l \in AllLex(T) :
+  /\ \A T \in SimpleTypes \ {"bint", "bdec"} : AtomClass(T) \in Chain(T)
+  /\ \A A \in AnonTypes : Chain(A) = {A} \cup Chain(AnonBase(A))
+(* the order of the big points: exact, total, and what the digit strings say *)
+LawBig == LET v(K) == VBig("lit", K) IN
+  /\ BigCmp(v(B53), v(B53p1)) < 0 /\ BigCmp(v(B53p1), v(D53h)) < 0 /\ BigCmp(v(D53h), v(B53p2)) < 0
+  /\ BigCmp(v(B53p2), v(B30)) < 0
+  /\ \A x \in BigLits, y \in BigLits : BigCmp(v(x), v(y)) = 0 - BigCmp(v(y), v(x)) /\ (BigCmp(v(x), v(y)) = 0 <=> x = y)
+  /\ \A x \in BigLits, y \in BigLits, z \in BigLits :
+        BigCmp(v(x), v(y)) < 0 /\ BigCmp(v(y), v(z)) < 0 => BigCmp(v(x), v(z)) < 0
+  /\ \A x \in BigLits, y \in BigLits : OpHolds("le", BigCmp(v(x), v(y))) <=> ~OpHolds("gt", BigCmp(v(x), v(y)))
+LawCollapse == \A T \in Lexed : \A l \in AllLex(T) :
                   /\ Collapse(Collapse(l)) = Collapse(l)
                   /\ T \notin {"string", "u", "ud"} => TypedValue(T, Collapse(l)) = TypedValue(T, l)
 (* a value of a derived type is a value of the base: typed value under xsi:type = under the declaration *)
+(* a = (a idiv 2) * 2 + r with |r| < 2 and r of the sign of a (truncation) *)
+LawIDiv == \A a \in (0 - 7)..7 : LET q == TruncDiv(a, 2) r == a - q * 2 IN
+              /\ r \in (0 - 1)..1 /\ (a >= 0 => r >= 0) /\ (a <= 0 => r <= 0)
 LawRestriction == \A l \in AllLex("small") : /\ TypedValue("small", l) = TypedValue("int", l)
                                           /\ ValidLex("int", l)
-StaticLaws == LawLexValid /\ LawChain /\ LawCollapse /\ LawRestriction
+StaticLaws == LawLexValid /\ LawChain /\ LawCollapse /\ LawRestriction /\ LawBig /\ LawIDiv
 
 PairLaws(S, inst) ==
   LET f == Flatten(S, inst)
